@@ -606,3 +606,18 @@ def match_big_edges(frame, info, at):
             i += 1
         out[beid] = path if ok else None
     return out
+
+
+def lens_at(phi=0.8):
+    """two cells A (above) and B (below) with a lens-shaped cell squeezed between them: the interfaces A|lens and B|lens
+    share BOTH end junctions (exact circular arcs)"""
+    J = {"0": [-1.0, 0.0], "1": [1.0, 0.0], "2": [-3.0, 0.0], "3": [3.0, 0.0], "4": [3.0, 2.0], "5": [-3.0, 2.0], "6": [-3.0, -2.0], "7": [3.0, -2.0]}
+    def I(a, b, L, R, phi=0.0, T=1.0):
+        return {"a": a, "b": b, "L": L, "R": R, "T": T, "phi": phi}
+    Is = [I("0", "1", "0", "2", -phi), I("0", "1", "2", "1", phi), I("2", "0", "0", "1"), I("1", "3", "0", "1"),
+          I("3", "4", "0", None), I("4", "5", "0", None), I("5", "2", "0", None),
+          I("2", "6", "1", None), I("6", "7", "1", None), I("7", "3", "1", None)]
+    C = {"0": [[2, 1], [0, 1], [3, 1], [4, 1], [5, 1], [6, 1]],
+         "1": [[7, 1], [8, 1], [9, 1], [3, -1], [1, -1], [2, -1]],
+         "2": [[1, 1], [0, -1]]}
+    return {"J": J, "I": Is, "C": C}
